@@ -45,21 +45,59 @@ func ReplayPicker(choices []int, misaligned *int) Picker {
 
 type dfsFrame struct {
 	enabled  []int
-	order    []int // alternatives in exploration order (default first)
-	idx      int   // index into order of the choice taken
-	cur      int   // thread that ran before this step
-	preempts int   // preemptions used before this step
+	order    []int   // alternatives in exploration order (default first)
+	idx      int     // index into order of the choice taken
+	cur      int     // thread that ran before this step
+	preempts int     // preemptions used before this step
+	curAddr  uintptr // address of the operation the running thread is about to perform (0 = none / always relevant)
 }
 
 type DFS struct {
-	Bound  int
-	stack  []dfsFrame
-	prefix []int
-	Runs   int
-	done   bool
+	Bound int
+	// StoreOnly restricts preemptions to points where the running thread is about to perform a store-type operation
+	// (store, CAS, add, swap, lock, unlock, cond, user function): a much smaller space that still contains the windows
+	// "after A published/unlocked x, before A's next write"; the unrestricted enumeration is run as well.
+	StoreOnly bool
+	// Perm is the priority order of threads for the default (non-preemptive) choice.
+	Perm []int
+	// Reduce prunes preemptions before operations on addresses that only one thread touched in the run the frame
+	// belongs to (such operations commute with everything the other threads do, so preempting there is equivalent to
+	// preempting before the thread's next operation on a shared address).
+	Reduce  bool
+	touched map[uintptr]uint64
+	stack   []dfsFrame
+	prefix  []int
+	Runs    int
+	done    bool
 }
 
 func NewDFS(bound int) *DFS { return &DFS{Bound: bound} }
+
+func storeType(k Kind) bool {
+	switch k {
+	case KStore, KCAS, KAdd, KSwap, KLock, KUnlock, KBroadcast, KSignal, KCondWait, KUser, KTryLock:
+		return true
+	}
+	return false
+}
+
+func (d *DFS) defaultChoice(r *Run, en []int) int {
+	for _, id := range en {
+		if id == r.LastT {
+			return id
+		}
+	}
+	if len(d.Perm) > 0 {
+		for _, p := range d.Perm {
+			for _, id := range en {
+				if id == p {
+					return id
+				}
+			}
+		}
+	}
+	return en[0]
+}
 
 func (d *DFS) cost(f *dfsFrame, choice int) int {
 	if f.cur >= 0 && contains(f.enabled, f.cur) && choice != f.cur {
@@ -74,16 +112,26 @@ func (d *DFS) Picker() Picker {
 	step := 0
 	preempts := 0
 	newStack := d.stack[:0:0]
+	d.touched = map[uintptr]uint64{}
 	return func(r *Run, en []int) int {
-		def := defaultChoice(r, en)
+		def := d.defaultChoice(r, en)
 		order := make([]int, 0, len(en))
 		order = append(order, def)
-		for _, id := range en {
-			if id != def {
-				order = append(order, id)
+		preemptible := true
+		if d.StoreOnly && r.LastT >= 0 && def == r.LastT && !storeType(r.Threads[def].Pending.Kind) {
+			preemptible = false // the running thread is about to read: do not branch here
+		}
+		if preemptible {
+			for _, id := range en {
+				if id != def {
+					order = append(order, id)
+				}
 			}
 		}
 		f := dfsFrame{enabled: append([]int(nil), en...), order: order, cur: r.LastT, preempts: preempts}
+		if r.LastT >= 0 && contains(en, r.LastT) {
+			f.curAddr = r.Threads[r.LastT].Pending.Addr
+		}
 		if step < len(d.prefix) {
 			want := d.prefix[step]
 			f.idx = -1
@@ -98,6 +146,9 @@ func (d *DFS) Picker() Picker {
 			}
 		}
 		choice := f.order[f.idx]
+		if a := r.Threads[choice].Pending.Addr; a != 0 {
+			d.touched[a] |= 1 << uint(choice)
+		}
 		preempts += d.cost(&f, choice)
 		newStack = append(newStack, f)
 		d.stack = newStack
@@ -112,6 +163,11 @@ func (d *DFS) Next() bool {
 	for i := len(d.stack) - 1; i >= 0; i-- {
 		f := &d.stack[i]
 		for j := f.idx + 1; j < len(f.order); j++ {
+			if d.Reduce && d.cost(f, f.order[j]) == 1 && f.curAddr != 0 {
+				if m := d.touched[f.curAddr]; m&(m-1) == 0 {
+					continue // the running thread's next operation is on an address nobody else touched in this run
+				}
+			}
 			if f.preempts+d.cost(f, f.order[j]) <= d.Bound {
 				d.prefix = d.prefix[:0]
 				for q := 0; q < i; q++ {
